@@ -16,6 +16,7 @@ mod c03;
 mod c04;
 mod c05;
 mod c06;
+mod c08;
 mod c11;
 mod c12;
 mod c13;
@@ -54,6 +55,11 @@ fn main() {
         i += 1;
     }
     let mut ctx = Ctx::new(&suite, &out, &tier, seed);
+    if suite == "c08" {
+        // owns the context: it may have to end the process early (watchdog)
+        c08::run(ctx);
+        return;
+    }
     match suite.as_str() {
         "c02" | "c14" => c02::run(&mut ctx),
         "c03" => c03::run(&mut ctx),
